@@ -23,7 +23,9 @@ Tags == Cat \cup Opt
 AllProfiles == { {c} \cup o : c \in Cat, o \in SUBSET Opt }
 NameKey(n) == [kind |-> "name", v |-> n]
 TagKey(t)  == [kind |-> "tag",  v |-> t]
-Keys == { NameKey(n) : n \in {"self", "other", "unknown", ""} } \cup { TagKey(t) : t \in Tags \cup {"unknown"} }
+\* names: the observed checker, another registered one, an unknown one, the empty entry, and names SPELLED LIKE A TAG;
+\* tags: every tag, an unknown one, and a tag SPELLED LIKE THE OBSERVED CHECKER (names and #tags are separate namespaces)
+Keys == { NameKey(n) : n \in {"self", "other", "unknown", ""} \cup Tags } \cup { TagKey(t) : t \in Tags \cup {"unknown", "self"} }
 Lists == UNION { [1..n -> Keys] : n \in 0..MaxList }
 Rng(s) == { s[i] : i \in 1..Len(s) }
 Default == <<[kind |-> "default", v |-> ""]>>     \* sentinel: flag not given (a sequence, so it compares with lists)
